@@ -118,6 +118,11 @@ CHECKS["C07"]["text"] += " Added seeded states: the dense and the annotated shee
 CHECKS["C16"]["text"] += " Added configurations: lazily opened workbooks that are never touched before the savers start."
 CHECKS["C17"]["text"] += " Added space: every ordered pair of texts parsed into the SAME Coordinate / Range / Address object (fresh-object twin)."
 CHECKS["C17"]["text"] += " Added clause: Worksheet::set_style_by_range as a public consumer of whole-row / whole-column range corners."
+CHECKS["C12"]["text"] += " Added space formula-text: the history tree with a marker that reaches its cell as the cached text of a formula (a t=str cell whose <v> is the text itself and which must not add a shared string)."
+CHECKS["C13"]["text"] += " The overlap space also suspends the password savers inside helper::crypt::encrypt (compound file created / completely written), has an encrypted save among the B saves, and reports any save of the pair that fails (nothing is injected there)."
+CHECKS["C14"]["text"] += " Added space overlap: save A suspended at either hook point inside helper::crypt::encrypt, save B (another entry point, another password, another package, same directory) run to completion there on the same thread; both files judged with every clause for their OWN password and package (3 x 2 x 3 cases, deterministic)."
+CHECKS["C16"]["text"] += " Iterative context bounding: a first space explores every completely-explored configuration with at most 2 preemptions; when it reports violations the complete pass is not run (recorded in caps_hit), so a change that multiplies the scheduling points is still answered in seconds."
+CHECKS["C20"]["text"] += " Added: every text-bearing special value also as a rich text of one and two runs, as the cached text of a formula and through auto-typed set_value."
 for _c in ("C17","C18","C19","C20"):
     CHECKS[_c]["text"] += " SUPPLEMENTARY (never part of the exhaustive claim): spaces named <id>~par run 4 consecutive cases at the same time on free-running threads - sampled interleavings, absolute oracles, so a report is a real wrong result while a clean pass proves nothing; it exists because a lock or cache introduced by a change carries no hook point for the cooperative scheduler."
 for _c in ("C14","C15","C17","C18","C19","C20"):
